@@ -177,6 +177,58 @@ def queue_gate(r, F):
                   "BlockEngine::enqueue must drop an entry only while the queued size exceeds the threshold; got (queued<thr,=,>) -> submitted %s" % (tab,), ln=c.ln)
 
 
+def engine_waits(r, F):
+    """`close` (and the hybrid flush before it) rely on BlockEngine::wait: its future awaits a Wait round-trip through EVERY flusher and then the reclaimers;
+    a flusher answers the Wait only from the completion of the io task that carried it"""
+    BE = "foyer_storage::engine::block::engine::BlockEngine"
+    w = F.method(BE, "wait")
+    cs = [g for g in F.descendants(w) if g.kind == "coroutine"]
+    if len(cs) != 1:
+        raise AnchorMissing("BlockEngine::wait: async body not found")
+    c = cs[0]
+
+    def awaited(call):
+        """blocks of IntoFuture::into_future applied to the result of `call` and followed by a poll of it"""
+        out = []
+        for b in c.calls_to(r"future::IntoFuture::into_future$"):
+            if any(bb == call.idx for bb, _ in backslice(c, b.term.args[0], "prov").calls) and any(p.idx in c.reachable([b.idx]) for p in c.calls_to(r"Future::poll$")):
+                out.append(b.idx)
+        return out
+    ja = c.calls_to(r"future::join_all$")
+    okj = False
+    if len(ja) == 1:
+        sl = backslice(c, ja[0].term.args[0], "dep")
+        mp = [t for bb, t in sl.calls if t.callee and t.callee.endswith("Iterator::map")]
+        over_flushers = sl.has_field("flushers") or any("flushers" in u for u in sl.upvars)
+        cl = [g for g in F.descendants(c) if g.kind == "closure" and g.calls_to(r"flusher::Flusher::<K, V, P>::wait$") and g.must_pass(0, [b.idx for b in g.calls_to(r"flusher::Flusher::<K, V, P>::wait$")])]
+        filt = [t for bb, t in sl.calls if t.callee and re.search(r"Iterator::(filter|take|skip|step_by|take_while|skip_while|filter_map)$", t.callee)]
+        aw = awaited(ja[0])
+        okj = bool(mp) and over_flushers and bool(cl) and not filt and bool(aw) and c.must_pass(0, aw)
+    r.require(okj, c, "wait awaits every flusher", "join_all(flushers.iter().map(|f| f.wait())).await on every path, no filtering adaptor",
+              "BlockEngine::wait does not await a Wait round-trip through every flusher: close() / flush can return while entries are still queued or being written", ln=c.lo)
+    wr = c.calls_to(r"manager::BlockManager::wait_reclaim$")
+    okr = len(wr) == 1 and bool(awaited(wr[0])) and c.must_pass(0, awaited(wr[0]))
+    r.require(okr, c, "wait awaits the reclaimers", "block_manager.wait_reclaim().await on every path", "BlockEngine::wait does not wait for running reclaims (re-insertions may still be queued when close returns)", ln=c.lo)
+    # Flusher::wait submits a Wait submission and its future resolves from the receiver
+    FL = "foyer_storage::engine::block::flusher::Flusher"
+    fw = F.method(FL, "wait")
+    sub = fw.calls_to(r"Flusher::<K, V, P>::submit$")
+    okw = len(sub) == 1 and fw.must_pass(0, [sub[0].idx]) and any(s_.k == "assign" and s_.rv.k == "agg" and s_.rv.j.get("variant") == "Wait" for b in fw.blocks for s_ in b.stmts)
+    cor = [g for g in F.descendants(fw) if g.kind == "coroutine"]
+    okw = okw and len(cor) == 1 and bool(cor[0].calls_to(r"future::IntoFuture::into_future$")) and any("oneshot::Receiver" in (cor[0].local_ty(l) or "") for l in range(cor[0].nlocals))
+    r.require(okw, fw, "Flusher::wait = submit(Wait{tx}) then await rx", "the returned future resolves when the flusher answers the Wait", "Flusher::wait does not submit a Wait submission / await its answer", ln=fw.lo)
+    # the flusher answers waiters only in handle_io_complete (after the batch's io), and recv only queues them
+    RUN = "foyer_storage::engine::block::flusher::Runner"
+    sends = []
+    for f in F.all_fns("P"):
+        if (F.P.get(f.root, f).self_ty or "").startswith(RUN):
+            for b in f.calls_to(r"oneshot::Sender::<T>::send$"):
+                if "()" in (f.local_ty(b.term.args[1].place.local) if b.term.args[1].place is not None else "()"):
+                    sends.append(F.P.get(f.root, f).id.rsplit("::", 1)[-1])
+    r.require(bool(sends) and set(sends) == {"handle_io_complete"}, None, "waiters answered only on io completion", "oneshot send(()) sites of the runner: %s" % sorted(set(sends)),
+              "a flusher answers Wait submissions outside handle_io_complete (%s): the answer can overtake the write of the entries queued before it" % sorted(set(sends)))
+
+
 def drop_closes(r, F):
     d = F.method(HC + "::Inner", "drop", "Drop")
     bodies = [d] + F.descendants(d)
@@ -227,5 +279,6 @@ def run(chk, F):
     chk.run_rule("C15.flush-all", "flush evicts every shard to zero and hands every record to the pipe; the pipe enqueues all but in-memory-only pieces after draining", 5, flush_all, F)
     chk.run_rule("C15.engine-refuses", "enqueue/delete test `active` before allocating or submitting; close deactivates then waits", 3, engine_refuses, F)
     chk.run_rule("C15.queue-gate", "the submit-queue admission counter is released for every received entry by the amount added for it; the gate drops only above the threshold", 6, queue_gate, F)
+    chk.run_rule("C15.engine-waits", "BlockEngine::wait awaits a Wait round-trip through every flusher and the reclaimers; waiters are answered only on io completion", 4, engine_waits, F)
     chk.run_rule("C15.drop-closes", "Drop and close() run close_inner with the cache's own flag and tiers", 2, drop_closes, F)
     chk.run_rule("C15.inmem-guard", "every Store::enqueue of the hybrid layer is control-dependent on location != InMem", 5, C12.inmem_guard, F)
